@@ -43,6 +43,8 @@ def run(ctx):
     # correct_pva reaches transform.perturb_lla: its closed form for all longitudes (C16's contract) re-established here
     from props import C16 as _C16
     ctx.guard(_C16.perturb_contract, ctx, py, "C12")
+    from props import helpers as _helpers_l
+    ctx.guard(_helpers_l.lean_induction, ctx, "C12", ['Pvx.transparent_run', 'Pvx.chunking_independent'])
     # frame of the modules under contract (no state kept between calls, arguments left alone): same analysis as C19
     from props import C19 as _C19
     ctx.guard(_C19.frame_obligations, ctx, py, "C12", {'inertial_sensor', 'util', 'filters'})
